@@ -15,12 +15,68 @@ Helper lemmas for the frame model (C07): matrix / quaternion algebra over an arb
 -/
 namespace Scenic.Frames
 
+/-! ### closed forms of the definitions instantiated on generated data
+
+These are *side conditions on the generated data* (`Gen/Frames.lean`): they hold exactly when the formula /
+axis sequence regenerated from `/repo` is the documented one. Every other proof uses the closed form. -/
+
+section gen
+variable {α : Type}
+
+/-- `Orientation.fromEuler(yaw, pitch, roll)` is the intrinsic `ZXY` product: yaw about Z, then pitch
+    about the new X, then roll about the newest Y (`Rotation.from_euler("ZXY", …)`) -/
+theorem euler_eq [Add α] [Sub α] [Mul α] [Neg α] [Div α] [OfNat α 0] [OfNat α 1] [OfNat α 2]
+    (yaw pitch roll : Ang α) : euler yaw pitch roll = (rotZ yaw).mul ((rotX pitch).mul (rotY roll)) := rfl
+
+/-- `Orientation.eulerAngles` extracts with the axis sequence `_fromEuler` constructs with (`ZXY`) -/
+theorem gen_euler_axes : Gen.Frames.fromEulerAxes = [2, 0, 1] ∧ Gen.Frames.eulerAnglesAxes = Gen.Frames.fromEulerAxes := by
+  decide
+
+/-- `Vector.rotatedBy(angle)`: counter-clockwise rotation in the XY plane, `z` unchanged -/
+theorem rotatedBy_eq [Field α] (v : Vec3 α) (a : Ang α) :
+    rotatedBy v a = ⟨a.c * v.x - a.s * v.y, a.s * v.x + a.c * v.y, v.z⟩ := by
+  simp only [rotatedBy, Gen.Frames.rotatedByFormula, Vec3.ofTriple]
+
+variable [Field α] [DecidableEq α]
+
+/-- `sphericalCoordinates()[1]`: `theta = atan2(y, x) - π/2` — `(cos, sin) = (y / h, -x / h)`;
+    `-π/2` for a vertical vector -/
+theorem azimuthOf_eq (d : Vec3 α) (h : α) :
+    azimuthOf d h = if h = 0 then ⟨0, -1⟩ else ⟨d.y / h, -d.x / h⟩ := by
+  simp only [azimuthOf, atan2CS, Ang.ofPair, Gen.Frames.sphThetaArgs, Gen.Frames.sphThetaPost]
+  split_ifs <;> ext <;> simp only [neg_div]
+
+/-- `sphericalCoordinates()[2]`: `phi = atan2(z, hypot(x, y))` — `(cos, sin) = (h / rho, z / rho)` -/
+theorem altitudeOf_eq (d : Vec3 α) (h rho : α) :
+    altitudeOf d h rho = if rho = 0 then ⟨1, 0⟩ else ⟨h / rho, d.z / rho⟩ := by
+  simp only [altitudeOf, atan2CS, Ang.ofPair, Gen.Frames.sphPhiArgs, Gen.Frames.sphPhiPost]
+
+/-- `Vector.azimuthTo(other)` is the spherical azimuth of `other - self` -/
+theorem azimuthTo_eq (a b : Vec3 α) (h : α) : azimuthTo a b h = azimuthOf (b.sub a) h := by
+  rw [azimuthOf_eq]
+  simp only [azimuthTo, atan2CS, Ang.ofPair, Gen.Frames.azimuthToArgs, Gen.Frames.azimuthToPost]
+  split_ifs <;> ext <;> simp only [neg_div]
+
+/-- `Vector.altitudeTo(other)` is the spherical altitude of `other - self` -/
+theorem altitudeTo_eq (a b : Vec3 α) (h rho : α) : altitudeTo a b h rho = altitudeOf (b.sub a) h rho := by
+  rw [altitudeOf_eq]
+  simp only [altitudeTo, atan2CS, Ang.ofPair, Gen.Frames.altitudeToArgs, Gen.Frames.altitudeToPost]
+
+/-- `apparentHeadingAtPoint(point, heading, base)`: `heading + π/2 - atan2(oy - y, ox - x)` -/
+theorem apparentHeading_eq (point : Vec3 α) (heading : Ang α) (base : Vec3 α) (h : α) :
+    apparentHeading point heading base h =
+      if h = 0 then heading.quarter else heading.add ⟨(point.y - base.y) / h, (point.x - base.x) / h⟩ := by
+  simp only [apparentHeading, atan2CS, Ang.ofPair, Gen.Frames.apparentHeadingArgs, Gen.Frames.apparentHeadingPost]
+  split_ifs <;> ext <;> simp only [Ang.quarter, Ang.add] <;> ring
+
+end gen
+
 /-- unfold the vector / matrix / quaternion / angle primitives down to field arithmetic -/
 macro "unfold_frames" : tactic => `(tactic| simp only [Vec3.add, Vec3.sub, Vec3.neg, Vec3.smul, Vec3.dot,
   Vec3.normSq, Vec3.zero, Vec3.ex, Vec3.ey, Vec3.ez, Vec3.ofTriple,
   Mat3.col0, Mat3.col1, Mat3.col2, Mat3.one, Mat3.mulVec, Mat3.transpose, Mat3.mul, Mat3.det, Mat3.sdiv, Mat3.scale,
   Quat.mul, Quat.conj, Quat.normSq, Quat.rawMat, Quat.one, Quat.aboutX, Quat.aboutY, Quat.aboutZ,
-  Ang.zero, Ang.ofHalf, Ang.add, Ang.neg, Ang.sub, Ang.quarter, rotZ, rotX, rotY, euler, rotatedBy,
+  Ang.zero, Ang.ofHalf, Ang.add, Ang.neg, Ang.sub, Ang.quarter, rotZ, rotX, rotY, euler_eq, rotatedBy_eq,
   offsetLocally, relativePosition, localCoords, distSq])
 
 /-- the same at a hypothesis -/
@@ -28,7 +84,7 @@ macro "unfold_frames_at" h:ident : tactic => `(tactic| simp only [Vec3.add, Vec3
   Vec3.normSq, Vec3.zero, Vec3.ex, Vec3.ey, Vec3.ez, Vec3.ofTriple,
   Mat3.col0, Mat3.col1, Mat3.col2, Mat3.one, Mat3.mulVec, Mat3.transpose, Mat3.mul, Mat3.det, Mat3.sdiv, Mat3.scale,
   Quat.mul, Quat.conj, Quat.normSq, Quat.rawMat, Quat.one, Quat.aboutX, Quat.aboutY, Quat.aboutZ,
-  Ang.zero, Ang.ofHalf, Ang.add, Ang.neg, Ang.sub, Ang.quarter, rotZ, rotX, rotY, euler, rotatedBy,
+  Ang.zero, Ang.ofHalf, Ang.add, Ang.neg, Ang.sub, Ang.quarter, rotZ, rotX, rotY, euler_eq, rotatedBy_eq,
   offsetLocally, relativePosition, localCoords, distSq] at $h:ident)
 
 /-- component-wise polynomial identity between vectors / matrices / quaternions -/
@@ -160,8 +216,8 @@ theorem isRot_rotY {a : Ang α} (h : a.Unit) : (rotY a).IsRot := by
   · ext <;> unfold_frames <;> first | linear_combination h | ring
   · unfold_frames; linear_combination h
 
-theorem isRot_euler {y p r : Ang α} (hy : y.Unit) (hp : p.Unit) (hr : r.Unit) : (euler y p r).IsRot :=
-  (isRot_rotZ hy).mul ((isRot_rotX hp).mul (isRot_rotY hr))
+theorem isRot_euler {y p r : Ang α} (hy : y.Unit) (hp : p.Unit) (hr : r.Unit) : (euler y p r).IsRot := by
+  rw [euler_eq]; exact (isRot_rotZ hy).mul ((isRot_rotX hp).mul (isRot_rotY hr))
 
 theorem euler_zero : euler (Ang.zero : Ang α) Ang.zero Ang.zero = Mat3.one := by frames_ring
 
